@@ -9,6 +9,8 @@ to one form here - and only where the rewrite is provably the same program:
                `from . import asn1` + `asn1.ASN1Reader` -> `from .asn1 import ASN1Reader` + `ASN1Reader`
   constants    `_MASK: t.Final = 0x7F` -> `_MASK = 0x7F` (module level only; class-level annotations are dataclass fields); a private
                module-level name for an int / str / bytes literal is read as the literal where it is used
+  annotations  `X | None` -> `t.Optional[X]`, `list[X]` -> `t.List[X]`, `collections.abc.Callable` -> `t.Callable`; `isinstance(x, A | B)` ->
+               `isinstance(x, (A, B))`
   aliases      `_BytesLike = t.Union[bytes, bytearray, memoryview]` used in an annotation -> the type written out, also when
                the alias lives in a sibling module
   logging      `_log.debug("...%d", len(x))` with `_log = logging.getLogger(...)`: logging never raises into its caller and
@@ -383,6 +385,125 @@ def _annotation_slots(tree: ast.AST):
             yield x, "annotation"
 
 
+_PEP585 = {"list": "List", "dict": "Dict", "tuple": "Tuple", "set": "Set", "frozenset": "FrozenSet", "type": "Type"}
+_ABC = {"Callable", "Iterator", "Iterable", "Sequence", "Mapping", "MutableMapping", "Generator", "Collection", "Set", "MutableSet", "MutableSequence"}
+
+
+class _Anno(ast.NodeTransformer):
+    """One spelling for annotations: `X | None` -> `t.Optional[X]`, `A | B` -> `t.Union[A, B]`, `list[X]` -> `t.List[X]`,
+    `collections.abc.Callable[...]` / a bare `Callable[...]` -> `t.Callable[...]`."""
+
+    def __init__(self, bare_typing: Set[str]):
+        self.bare = bare_typing
+        self.n = 0
+
+    def _t(self, name: str) -> ast.expr:
+        return ast.Attribute(value=ast.Name(id="t", ctx=ast.Load()), attr=name, ctx=ast.Load())
+
+    def visit_BinOp(self, node: ast.BinOp):
+        if not isinstance(node.op, ast.BitOr):
+            return node
+        parts: List[ast.expr] = []
+
+        def flat(x):
+            if isinstance(x, ast.BinOp) and isinstance(x.op, ast.BitOr):
+                flat(x.left)
+                flat(x.right)
+            else:
+                parts.append(self.visit(x))
+        flat(node)
+        self.n += 1
+        nones = [p for p in parts if isinstance(p, ast.Constant) and p.value is None]
+        rest = [p for p in parts if not (isinstance(p, ast.Constant) and p.value is None)]
+        inner = rest[0] if len(rest) == 1 else ast.Subscript(value=self._t("Union"), slice=ast.Tuple(elts=rest, ctx=ast.Load()), ctx=ast.Load())
+        if nones:
+            return ast.Subscript(value=self._t("Optional"), slice=inner, ctx=ast.Load())
+        return inner
+
+    def visit_Subscript(self, node: ast.Subscript):
+        node = self.generic_visit(node)
+        b = node.value
+        if isinstance(b, ast.Name) and b.id in _PEP585:
+            self.n += 1
+            node.value = self._t(_PEP585[b.id])
+        elif isinstance(b, ast.Name) and b.id in self.bare:
+            self.n += 1
+            node.value = self._t(b.id)
+        elif isinstance(b, ast.Attribute) and b.attr in _ABC and ast.unparse(b.value) in ("collections.abc", "abc", "cabc", "typing"):
+            self.n += 1
+            node.value = self._t(b.attr)
+        return node
+
+    def visit_Name(self, node: ast.Name):
+        if node.id in self.bare and isinstance(node.ctx, ast.Load):
+            self.n += 1
+            return self._t(node.id)
+        return node
+
+    def visit_Constant(self, node: ast.Constant):
+        return node
+
+
+def _annotations(parsed, log) -> None:
+    for modname, _p, _s, tree in parsed:
+        bound = _bound_names(tree)
+        # names imported bare from collections.abc that only make sense in annotations
+        bare: Set[str] = set()
+        for node in tree.body:
+            if isinstance(node, ast.ImportFrom) and node.level == 0 and node.module in ("collections.abc",):
+                for al in node.names:
+                    if al.name in _ABC and (al.asname or al.name) == al.name and bound.get(al.name, 0) == 1:
+                        bare.add(al.name)
+        if bound.get("t", 0) > 1:
+            continue
+        n = 0
+        tr = _Anno(bare)
+        for owner, fld in _annotation_slots(tree):
+            a = getattr(owner, fld)
+            if isinstance(a, ast.Constant) and isinstance(a.value, str):
+                try:
+                    a2 = ast.parse(a.value, mode="eval").body
+                except SyntaxError:
+                    continue
+                if not any(isinstance(x, ast.BinOp) or (isinstance(x, ast.Name) and x.id in _PEP585) for x in ast.walk(a2)):
+                    continue
+                a = ast.copy_location(a2, a)
+            before = tr.n
+            new = tr.visit(a)
+            if tr.n != before:
+                ast.fix_missing_locations(ast.copy_location(new, a) if not hasattr(new, "lineno") else new)
+                setattr(owner, fld, new)
+        # module-level aliases whose value is a type expression are annotations too
+        for st in tree.body:
+            if isinstance(st, (ast.Assign, ast.AnnAssign)) and st.value is not None and isinstance(st.value, (ast.Subscript, ast.BinOp)) and \
+                    _is_type_expr(st.value, {c.name for c in tree.body if isinstance(c, ast.ClassDef)} | {al.asname or al.name for n2 in tree.body if isinstance(n2, ast.ImportFrom) for al in n2.names}):
+                before = tr.n
+                st.value = tr.visit(st.value)
+        # `isinstance(x, A | B | C)` is `isinstance(x, (A, B, C))`
+        for c in ast.walk(tree):
+            if isinstance(c, ast.Call) and isinstance(c.func, ast.Name) and c.func.id in ("isinstance", "issubclass") and len(c.args) == 2 and \
+                    isinstance(c.args[1], ast.BinOp) and isinstance(c.args[1].op, ast.BitOr):
+                parts: List[ast.expr] = []
+
+                def flat(x):
+                    if isinstance(x, ast.BinOp) and isinstance(x.op, ast.BitOr):
+                        flat(x.left)
+                        flat(x.right)
+                    else:
+                        parts.append(x)
+                flat(c.args[1])
+                c.args[1] = ast.copy_location(ast.Tuple(elts=parts, ctx=ast.Load()), c.args[1])
+                tr.n += 1
+        if tr.n:
+            if tr.n and not any(isinstance(n2, ast.Import) and any(al.name == "typing" and al.asname == "t" for al in n2.names) for n2 in tree.body):
+                imp = ast.Import(names=[ast.alias(name="typing", asname="t")])
+                at = next((i for i, b in enumerate(tree.body) if isinstance(b, (ast.Import, ast.ImportFrom)) and not (isinstance(b, ast.ImportFrom) and b.module == "__future__")), 0)
+                ast.copy_location(imp, tree.body[at] if tree.body else tree)
+                tree.body.insert(at, imp)
+            log.setdefault(modname, {})["annotation spellings"] = tr.n
+            ast.fix_missing_locations(tree)
+
+
 def _aliases(parsed, log) -> None:
     """Type aliases are written out where they are used as annotations."""
     trees = {m: t for m, _p, _s, t in parsed}
@@ -452,6 +573,171 @@ def _aliases(parsed, log) -> None:
             n += r.n
         if n:
             log.setdefault(m, {})["type aliases written out"] = n
+            ast.fix_missing_locations(tree)
+
+
+def _structure(parsed, log) -> None:
+    """`with a as x, b as y:` is `with a as x:` around `with b as y:`; a module-level table written as a union of module-level dict
+    literals (`TABLE = _A | _B | _C`) is the one literal it evaluates to."""
+    for modname, _p, _s, tree in parsed:
+        n = 0
+
+        class W(ast.NodeTransformer):
+            def visit_With(self, node: ast.With):
+                nonlocal n
+                node = self.generic_visit(node)
+                if len(node.items) > 1:
+                    n += 1
+                    inner = node.body
+                    for it in reversed(node.items[1:]):
+                        w = ast.With(items=[it], body=inner)
+                        ast.copy_location(w, it.context_expr)
+                        inner = [w]
+                    node.items = node.items[:1]
+                    node.body = inner
+                return node
+        W().visit(tree)
+        bound = _bound_names(tree)
+        lits: Dict[str, ast.Dict] = {}
+        for st in tree.body:
+            tg, val = None, None
+            if isinstance(st, ast.Assign) and len(st.targets) == 1 and isinstance(st.targets[0], ast.Name):
+                tg, val = st.targets[0].id, st.value
+            elif isinstance(st, ast.AnnAssign) and isinstance(st.target, ast.Name) and st.value is not None:
+                tg, val = st.target.id, st.value
+            if tg is None or bound.get(tg, 0) != 1:
+                continue
+            if isinstance(val, ast.Dict) and all(k is not None for k in val.keys):
+                lits[tg] = val
+                continue
+            if isinstance(val, ast.BinOp) and isinstance(val.op, ast.BitOr):
+                parts: List[ast.expr] = []
+
+                def flat(x):
+                    if isinstance(x, ast.BinOp) and isinstance(x.op, ast.BitOr):
+                        flat(x.left)
+                        flat(x.right)
+                    else:
+                        parts.append(x)
+                flat(val)
+                if all((isinstance(p_, ast.Name) and p_.id in lits) or (isinstance(p_, ast.Dict) and all(k is not None for k in p_.keys)) for p_ in parts):
+                    keys: List[ast.expr] = []
+                    vals: List[ast.expr] = []
+                    for p_ in parts:
+                        d = lits[p_.id] if isinstance(p_, ast.Name) else p_
+                        keys += [copy.deepcopy(k) for k in d.keys]
+                        vals += [copy.deepcopy(v) for v in d.values]
+                    merged = ast.copy_location(ast.Dict(keys=keys, values=vals), val)
+                    st.value = merged
+                    lits[tg] = merged
+                    n += 1
+        if n:
+            log.setdefault(modname, {})["statement shapes"] = n
+            ast.fix_missing_locations(tree)
+
+
+def _prefixes(parsed, log) -> None:
+    """`x.removeprefix(P)` / `x.removesuffix(P)` with a constant P: where the enclosing code has just established `x.startswith(P)`
+    (an `if`, or the exit of `while not x.startswith(P):`) it is the slice `x[len(P):]`; elsewhere the conditional expression
+    `x[len(P):] if x.startswith(P) else x` that defines it."""
+    for modname, _p, _s, tree in parsed:
+        n = 0
+
+        def fact_of(test: ast.expr, negate: bool = False):
+            t = test
+            if isinstance(t, ast.UnaryOp) and isinstance(t.op, ast.Not):
+                return fact_of(t.operand, not negate)
+            if not negate and isinstance(t, ast.Call) and isinstance(t.func, ast.Attribute) and t.func.attr in ("startswith", "endswith") and isinstance(t.func.value, ast.Name) \
+                    and len(t.args) == 1 and isinstance(t.args[0], ast.Constant) and isinstance(t.args[0].value, (str, bytes)):
+                return (t.func.value.id, t.func.attr, t.args[0].value)
+            return None
+
+        def rewrite_in(node: ast.AST, facts: set) -> None:
+            nonlocal n
+
+            class R(ast.NodeTransformer):
+                def visit_Call(self, c: ast.Call):
+                    nonlocal n
+                    c = self.generic_visit(c)
+                    if isinstance(c.func, ast.Attribute) and c.func.attr in ("removeprefix", "removesuffix") and isinstance(c.func.value, ast.Name) and len(c.args) == 1 and \
+                            not c.keywords and isinstance(c.args[0], ast.Constant) and isinstance(c.args[0].value, (str, bytes)) and len(c.args[0].value) > 0:
+                        x, P = c.func.value.id, c.args[0].value
+                        k = len(P)
+                        pre = c.func.attr == "removeprefix"
+                        sl = ast.Subscript(value=ast.Name(id=x, ctx=ast.Load()),
+                                           slice=ast.Slice(lower=ast.Constant(value=k), upper=None, step=None) if pre else
+                                           ast.Slice(lower=None, upper=ast.UnaryOp(op=ast.USub(), operand=ast.Constant(value=k)), step=None), ctx=ast.Load())
+                        n += 1
+                        if (x, "startswith" if pre else "endswith", P) in facts:
+                            return ast.copy_location(sl, c)
+                        test = ast.Call(func=ast.Attribute(value=ast.Name(id=x, ctx=ast.Load()), attr="startswith" if pre else "endswith", ctx=ast.Load()),
+                                        args=[ast.Constant(value=P)], keywords=[])
+                        return ast.copy_location(ast.IfExp(test=test, body=sl, orelse=ast.Name(id=x, ctx=ast.Load())), c)
+                    return c
+
+                def visit_FunctionDef(self, f):
+                    return f
+
+                def visit_Lambda(self, f):
+                    return f
+            for fld, val in ast.iter_fields(node):
+                if isinstance(val, ast.expr):
+                    setattr(node, fld, R().visit(val))
+                elif isinstance(val, list) and val and isinstance(val[0], ast.expr):
+                    setattr(node, fld, [R().visit(v) for v in val])
+
+        def block(stmts: List[ast.stmt], facts: set) -> set:
+            facts = set(facts)
+            for st in stmts:
+                if isinstance(st, (ast.FunctionDef, ast.AsyncFunctionDef)):
+                    block(st.body, set())
+                    continue
+                if isinstance(st, ast.ClassDef):
+                    block(st.body, set())
+                    continue
+                if isinstance(st, ast.If):
+                    rewrite_in_expr_fields(st, facts, ("test",))
+                    f = fact_of(st.test)
+                    block(st.body, facts | ({f} if f else set()))
+                    fneg = fact_of(st.test, True)
+                    block(st.orelse, facts | ({fneg} if fneg else set()))
+                    facts = kill(facts, st)
+                    continue
+                if isinstance(st, ast.While):
+                    rewrite_in_expr_fields(st, set(), ("test",))
+                    block(st.body, set())
+                    block(st.orelse, set())
+                    facts = kill(facts, st)
+                    fneg = fact_of(st.test, True)
+                    if fneg and not any(isinstance(x, ast.Break) for b in st.body for x in ast.walk(b)):
+                        facts.add(fneg)
+                    continue
+                if isinstance(st, (ast.For, ast.AsyncFor, ast.With, ast.AsyncWith, ast.Try)):
+                    for fld in ("body", "orelse", "finalbody"):
+                        sub = getattr(st, fld, None)
+                        if isinstance(sub, list):
+                            block(sub, set())
+                    for h in getattr(st, "handlers", []):
+                        block(h.body, set())
+                    facts = kill(facts, st)
+                    continue
+                rewrite_in(st, facts)
+                facts = kill(facts, st)
+            return facts
+
+        def rewrite_in_expr_fields(st, facts, fields):
+            nonlocal n
+            holder = ast.Expr(value=getattr(st, fields[0]))
+            rewrite_in(holder, facts)
+            setattr(st, fields[0], holder.value)
+
+        def kill(facts: set, st: ast.stmt) -> set:
+            stored = {x.id for x in ast.walk(st) if isinstance(x, ast.Name) and isinstance(x.ctx, (ast.Store, ast.Del))}
+            return {f for f in facts if f[0] not in stored}
+        if any(isinstance(x, ast.Attribute) and x.attr in ("removeprefix", "removesuffix") for x in ast.walk(tree)):
+            block(tree.body, set())
+        if n:
+            log.setdefault(modname, {})["removeprefix / removesuffix"] = n
             ast.fix_missing_locations(tree)
 
 
@@ -664,8 +950,11 @@ def _roles(parsed, log) -> None:
 def canonicalise(parsed) -> Dict[str, Dict[str, int]]:
     log: Dict[str, Dict[str, int]] = {}
     _imports(parsed, log)
+    _structure(parsed, log)
+    _prefixes(parsed, log)
     _finals(parsed, log)
     _constants(parsed, log)
+    _annotations(parsed, log)
     _aliases(parsed, log)
     _logging(parsed, log)
     _roles(parsed, log)
